@@ -8,6 +8,13 @@
 //!   all2  one short stream: EVERY segmentation into 1, 2 and 3 reads is run on the implementation and
 //!         compared with the reference run; the model re-checks every 2-read segmentation
 //!   bad   well-formed prefix followed by one malformed frame
+//!   tail  short stream of commands whose LAST argument is the empty string (or whose key is empty):
+//!         every cut position, and every pair of cuts at most 3 bytes apart, is run (a read that ends
+//!         inside the last bytes of a frame); the model re-checks every cut position
+//!   bulk  a few SETs / LPUSHes of 1-4 KB values, then a deep pipeline of GET / LRANGE / ECHO (/ MGET)
+//!         whose replies total more than 64, 128 or 256 KiB, fed in one read or in two or three large
+//!         reads: judged by the direct oracles O1 O2 O3 O5; one in four of the 64 KiB cases without
+//!         MGET is also printed for the model (the others would cost coqc seconds each to parse)
 //!
 //! Direct oracles on the implementation (no model involved)
 //!   O1 no panic, no hang (5 s)                       O2 #replies decoded from the output = #commands
@@ -52,7 +59,7 @@ fn run(env: &Env, shards: usize, cfg: (usize, usize), chunks: &[Vec<u8>]) -> Ran
             let (stream, written, marks) = ScriptedStream::new(chunks.to_vec());
             let pool = ConnectionPool::new(2, 2);
             let acl = Arc::new(parking_lot::RwLock::new(AclManager::new()));
-            let config = ConnectionConfig { max_buffer_size: MAXBUF, read_buffer_size: 65536, min_pipeline_buffer: cfg.0, batch_threshold: cfg.1 };
+            let config = ConnectionConfig { max_buffer_size: MAXBUF, read_buffer_size: MAXBUF, min_pipeline_buffer: cfg.0, batch_threshold: cfg.1 };
             let h = OptimizedConnectionHandler::new(stream, state, "verif:0".to_string(), pool.buffer_pool(), env.metrics.clone(), config, acl, None);
             let done = tokio::time::timeout(std::time::Duration::from_secs(5), h.run()).await.is_ok();
             let w = written.lock().unwrap().clone();
@@ -276,6 +283,81 @@ fn gen_malformed(env: &Env, rng: &mut Rng) -> (String, Vec<u8>) {
     }
 }
 
+/// a command whose last argument is the empty string, or whose key is empty
+fn gen_empty_tail(env: &Env, rng: &mut Rng) -> Vec<(String, Vec<u8>)> {
+    let k = env.keys[..env.keys.len() - 1].choose(rng).unwrap().clone();
+    let v = VALS.choose(rng).unwrap().to_vec();
+    match rng.gen_range(0..10) {
+        0 => vec![("echo-empty".into(), enc(&[&case_name(rng, "echo"), b""]))],
+        1 => vec![("append-empty".into(), enc(&[b"APPEND", &k, b""]))],
+        2 => vec![("set-empty-fast".into(), enc(&[[b"SET".as_ref(), b"set"].choose(rng).unwrap(), &k, b""]))],
+        3 => vec![("set-empty-generic".into(), enc(&[b"SeT", &k, b""]))],
+        4 => vec![("multi".into(), enc(&[b"MULTI"])), ("set-empty-in-multi".into(), enc(&[b"SET", &k, b""])), ("exec".into(), enc(&[b"EXEC"]))],
+        5 => vec![("lpush-empty".into(), enc(&[b"LPUSH", &k, b""]))],
+        6 => vec![("lpush-empty-last".into(), enc(&[b"LPUSH", &k, &v, b""]))],
+        7 => vec![("get-empty-key".into(), enc(&[&case_name(rng, "get"), b""]))],
+        8 => vec![("set-empty-key-and-value".into(), enc(&[b"SET", b"", b""]))],
+        _ => vec![("ping-empty".into(), enc(&[b"PING", b""]))],
+    }
+}
+
+/// SETs / LPUSHes of 1-4 KB values, then a deep pipeline whose replies exceed `target` bytes;
+/// returns the frames and whether an MGET (not in the mini backend) was used
+fn gen_bulk(env: &Env, rng: &mut Rng, target: usize) -> (Vec<(String, Vec<u8>)>, bool) {
+    let mut frames = Vec::new();
+    let nk = rng.gen_range(1..4);
+    let mut ks: Vec<(Vec<u8>, usize)> = Vec::new();
+    for j in 0..nk {
+        let k = env.keys[j % (env.keys.len() - 1)].clone();
+        let n = rng.gen_range(1024..4097);
+        let val: Vec<u8> = (0..n).map(|x| b'a' + ((x + j * 7) % 26) as u8).collect();
+        frames.push(("set-big".into(), enc(&[[b"SET".as_ref(), b"set", b"sEt"].choose(rng).unwrap(), &k, &val])));
+        ks.push((k, n));
+    }
+    let lk = env.keys[env.keys.len() - 2].clone(); // a key not used above (nk <= 3 < 7 keys)
+    let ln = rng.gen_range(1024..3000);
+    let lval: Vec<u8> = (0..ln).map(|x| b'A' + (x % 26) as u8).collect();
+    let with_list = rng.gen_bool(0.5);
+    if with_list {
+        frames.push(("lpush-big".into(), enc(&[b"LPUSH", &lk, &lval, &lval])));
+    }
+    let allow_mget = rng.gen_bool(0.4);
+    let mut used_mget = false;
+    let mut est = 0usize;
+    let pure_get = rng.gen_bool(0.3);
+    while est < target + target / 8 {
+        let (k, n) = ks.choose(rng).unwrap().clone();
+        match if pure_get { 0 } else { rng.gen_range(0..12) } {
+            0..=6 => {
+                frames.push(("get-big".into(), enc(&[&case_name(rng, "get"), &k])));
+                est += n + 12;
+            }
+            7 if with_list => {
+                frames.push(("lrange-big".into(), enc(&[b"LRANGE", &lk, b"0", b"-1"])));
+                est += 2 * ln + 30;
+            }
+            8 => {
+                frames.push(("echo-big".into(), enc(&[b"ECHO", &lval])));
+                est += ln + 12;
+            }
+            9 if allow_mget => {
+                let (k2, n2) = ks.choose(rng).unwrap().clone();
+                frames.push(("mget-big".into(), enc(&[b"MGET", &k, &k2])));
+                used_mget = true;
+                est += n + n2 + 30;
+            }
+            10 => frames.push(("ping".into(), enc(&[b"PING"]))),
+            _ => {
+                frames.push(("get-big".into(), enc(&[b"GET", &k])));
+                est += n + 12;
+            }
+        }
+    }
+    // at least one command after the mark
+    frames.push(("get-big".into(), enc(&[&case_name(rng, "get"), &ks[0].0])));
+    (frames, used_mget)
+}
+
 struct Stream {
     frames: Vec<(String, Vec<u8>)>,
     bad: Option<(String, Vec<u8>)>,
@@ -383,8 +465,28 @@ fn main() {
         let mut rng = case_rng(args.seed, i);
         let shards = if rng.gen_bool(0.5) { 1 } else { 4 };
         let cfg = CFGS[rng.gen_range(0..CFGS.len())];
-        let kind = if i % exh_every == exh_every - 1 { "all2" } else if rng.gen_range(0..5) == 0 { "bad" } else { "seg" };
-        let st = gen_stream(&env, &mut rng, kind == "all2", kind == "bad");
+        let kind = if i % exh_every == exh_every - 1 { "all2" } else if i % 20 == 7 { "tail" } else if i % 25 == 3 { "bulk" } else if rng.gen_range(0..5) == 0 { "bad" } else { "seg" };
+        let mut bulk_model = false;
+        let st = if kind == "tail" {
+            let mut frames = Vec::new();
+            let mut im = false;
+            if rng.gen_bool(0.4) {
+                frames.push(gen_cmd(&env, &mut rng, &mut im, 0));
+            }
+            frames.extend(gen_empty_tail(&env, &mut rng));
+            if rng.gen_bool(0.3) {
+                frames.extend(gen_empty_tail(&env, &mut rng));
+            }
+            Stream { frames, bad: None }
+        } else if kind == "bulk" {
+            let target = *[64usize << 10, 128 << 10, 256 << 10].choose(&mut rng).unwrap();
+            out.count(&format!("bulk:target_kib:{}", target >> 10));
+            let (frames, mget) = gen_bulk(&env, &mut rng, target);
+            bulk_model = !mget && target == 64 << 10 && rng.gen_range(0..4) == 0;
+            Stream { frames, bad: None }
+        } else {
+            gen_stream(&env, &mut rng, kind == "all2", kind == "bad")
+        };
         let bytes = st.bytes();
         let wf: Vec<u8> = st.frames.iter().flat_map(|f| f.1.clone()).collect();
         out.count(&format!("kind:{}", kind));
@@ -416,14 +518,15 @@ fn main() {
                 }
             }
         }
-        let detail = |chunks: &[Vec<u8>], got: &Ran| json!({"config": [cfg.0, cfg.1], "shards": shards, "reads": chunks.iter().map(|c| hex(c)).collect::<Vec<_>>(), "got": format!("{:?}", got).chars().take(600).collect::<String>(), "reference_output": hex(&ref_out), "labels": st.frames.iter().map(|f| f.0.clone()).chain(st.bad.iter().map(|b| b.0.clone())).collect::<Vec<_>>()});
-        if kind == "all2" {
-            // every segmentation into 1, 2, 3 reads
+        let short = |b: &[u8]| -> String { if b.len() <= 1500 { hex(b) } else { format!("{}...({} bytes)", hex(&b[..1500]), b.len()) } };
+        let detail = |chunks: &[Vec<u8>], got: &Ran| json!({"config": [cfg.0, cfg.1], "shards": shards, "reads": chunks.iter().map(|c| short(c)).collect::<Vec<_>>(), "got": format!("{:?}", got).chars().take(600).collect::<String>(), "reference_output": short(&ref_out), "first_difference_at_byte": match got { Ran::Ok(w, _) => w.iter().zip(ref_out.iter()).position(|(a, b)| a != b).map(|p| p as i64).unwrap_or(-1), _ => -1 }, "output_len": match got { Ran::Ok(w, _) => w.len(), _ => 0 }, "labels": st.frames.iter().map(|f| f.0.clone()).take(40).chain(st.bad.iter().map(|b| b.0.clone())).collect::<Vec<_>>()});
+        if kind == "all2" || kind == "tail" {
+            // all2: every segmentation into 1, 2, 3 reads; tail: every cut, and every two cuts at most 3 bytes apart
             let l = bytes.len();
             let mut all_ok = true;
             let mut nseg = 0u64;
             'outer: for a in 0..=l {
-                for b in a..=l {
+                for b in a..=(if kind == "tail" { (a + 3).min(l) } else { l }) {
                     let chunks = cut(&bytes, &[a, b]);
                     let got = run(&env, shards, cfg, &chunks);
                     nseg += 1;
@@ -431,14 +534,13 @@ fn main() {
                     let ok = matches!(&got, Ran::Ok(w, _) if *w == ref_out);
                     if !ok {
                         all_ok = false;
-                        let what = match got { Ran::Panic(_) => "O1: the handler panicked", Ran::Hang => "O1: the handler hung", _ => "O3: output differs from the one-command-per-read reference (a segmentation into <= 3 reads)" };
+                        let what = match got { Ran::Panic(_) => "O1: the handler panicked (a segmentation into <= 3 reads)", Ran::Hang => "O1: the handler hung (a segmentation into <= 3 reads)", _ => "O3: output differs from the one-command-per-read reference (a segmentation into <= 3 reads)" };
                         out.violation(i, what, detail(&chunks, &got));
                         break 'outer;
                     }
                 }
             }
-            out.count("all2:segmentations_run_x1000");
-            *out.dist.entry("all2:segmentations".into()).or_insert(0) += nseg;
+            *out.dist.entry(format!("{}:segmentations", kind)).or_insert(0) += nseg;
             let term = format!("(KAll {} {} {})", cfg_term(cfg), chex(&bytes), chex(&ref_out));
             out.case(i, term, st.frames.len() >= 2 && !ref_out.is_empty(), &format!("{:?}{}{}{}", cfg, shards, hex(&bytes), all_ok));
             if args.only.is_some() {
@@ -448,8 +550,26 @@ fn main() {
         }
         // one segmentation
         let l = bytes.len();
-        let chunks: Vec<Vec<u8>> = match rng.gen_range(0..6) {
+        let chunks: Vec<Vec<u8>> = match if kind == "bulk" { [0, 0, 2, 7].choose(&mut rng).copied().unwrap() } else { rng.gen_range(0..7) } {
             0 => vec![bytes.clone()],
+            6 => {
+                // reads that end inside the last four bytes of a frame
+                let mut cs = Vec::new();
+                let mut p = 0;
+                for f in st.frames.iter().map(|f| &f.1).chain(st.bad.iter().map(|b| &b.1)) {
+                    p += f.len();
+                    if rng.gen_bool(0.5) {
+                        cs.push(p - rng.gen_range(1..=4usize).min(f.len()));
+                    }
+                }
+                cut(&bytes, &cs)
+            }
+            7 => {
+                // two or three large reads
+                let mut cs: Vec<usize> = (0..rng.gen_range(1..3)).map(|_| rng.gen_range(0..=l)).collect();
+                cs.sort();
+                cut(&bytes, &cs)
+            }
             1 => st.frames.iter().map(|f| f.1.clone()).chain(st.bad.iter().map(|b| b.1.clone())).collect(),
             2 => {
                 let a = rng.gen_range(0..=l);
@@ -475,7 +595,7 @@ fn main() {
             Ran::Panic(_) => out.violation(i, "O1: the handler panicked", detail(&chunks, &got)),
             Ran::Hang => out.violation(i, "O1: the handler hung", detail(&chunks, &got)),
             Ran::Ok(w, cum) => {
-                if kind == "seg" {
+                if kind != "bad" {
                     if *w != ref_out {
                         let n = replies(w).map(|r| r.len());
                         let what = if n != Some(st.frames.len()) { "O2/O3: number of replies differs from number of commands (output differs from the one-command-per-read reference)" } else { "O3: output differs from the one-command-per-read reference" };
@@ -514,10 +634,21 @@ fn main() {
                 }
             }
         }
+        if kind == "bulk" {
+            out.count(&format!("bulk:replies_kib>={}", (term_out.len() >> 16) << 6));
+            if !bulk_model {
+                out.count("bulk:judged_by_direct_oracles_only");
+                if args.only.is_some() {
+                    println!("bulk case: {} commands, {} reads, output {} bytes, reference {} bytes, identical: {}", st.frames.len(), chunks.len(), term_out.len(), ref_out.len(), term_out == ref_out);
+                }
+                continue;
+            }
+            out.count("bulk:also_checked_by_the_model");
+        }
         let term = format!("(KSeg {} {} {} {} {})", cfg_term(cfg), clist(chunks.iter(), |c| chex(c)), clist(term_cum.iter(), |c| c.to_string()), chex(&term_out), cbool(term_dead));
         let nontrivial = (st.frames.len() >= 2 || st.bad.is_some()) && !term_out.is_empty();
         out.case(i, term, nontrivial, &format!("{:?}{}{}{}", cfg, shards, chunks.iter().map(|c| hex(c)).collect::<Vec<_>>().join("|"), hex(&term_out)));
-        out.sample(json!({"config": [cfg.0, cfg.1], "shards": shards, "reads": chunks.iter().map(|c| String::from_utf8_lossy(c).to_string()).collect::<Vec<_>>(), "output": String::from_utf8_lossy(&term_out), "kind": kind}));
+        if kind != "bulk" { out.sample(json!({"config": [cfg.0, cfg.1], "shards": shards, "reads": chunks.iter().map(|c| String::from_utf8_lossy(c).to_string()).collect::<Vec<_>>(), "output": String::from_utf8_lossy(&term_out), "kind": kind})); }
         if args.only.is_some() {
             println!("kind {} config {:?} shards {} labels {:?}", kind, cfg, shards, st.frames.iter().map(|f| f.0.clone()).chain(st.bad.iter().map(|b| b.0.clone())).collect::<Vec<_>>());
             for c in &chunks {
